@@ -136,7 +136,44 @@ def norm(v):
     return v
 
 
+def spoil(v, depth=0):
+    """what an in-process caller may do with the objects it passed in or got back: keep using them. Every mutable container is changed in
+    place AFTER the operation has returned (and after its result has been normalised): a faithful map keeps nothing of the caller's"""
+    if isinstance(v, set):
+        v.clear()
+        v.add("~spoiled~")
+    elif isinstance(v, list):
+        for x in v:
+            spoil(x, depth + 1)
+        del v[:]
+        v.append("~spoiled~")
+    elif isinstance(v, dict):
+        for x in list(v.values()):
+            spoil(x, depth + 1)
+        v.clear()
+        v["~spoiled~"] = ("PYRO:spoiled@h:1", {"~spoiled~"})
+    elif isinstance(v, tuple) and depth < 3:
+        for x in v:
+            spoil(x, depth + 1)
+
+
+def done(result, *args):
+    out = norm(result)
+    if SPOIL[0]:
+        spoil(result)
+        for x in args:
+            spoil(x)
+    return out
+
+
+SPOIL = [True]
+
+
 def real_apply(ns, op, a, URI):
+    return real_apply_(ns, op, a, URI)
+
+
+def real_apply_(ns, op, a, URI):
     try:
         if op == "register":
             uri = URI(a["uri"]) if a.get("uri_obj") else a["uri"]
@@ -147,24 +184,24 @@ def real_apply(ns, op, a, URI):
                 meta = tuple(meta)
             elif meta is not None and not isinstance(meta, str):
                 meta = set(meta)
-            return norm(ns.register(a["name"], uri, safe=a["safe"], metadata=meta))
+            return done(ns.register(a["name"], uri, safe=a["safe"], metadata=meta), meta)
         if op == "lookup":
-            return norm(ns.lookup(a["name"], return_metadata=a["meta"]))
+            return done(ns.lookup(a["name"], return_metadata=a["meta"]))
         if op == "set_metadata":
             meta = a["meta"]
             if meta is not None and not isinstance(meta, str):
                 meta = list(meta) if a.get("meta_as") == "list" else set(meta)
-            return norm(ns.set_metadata(a["name"], meta))
+            return done(ns.set_metadata(a["name"], meta), meta)
         if op == "remove":
-            return norm(ns.remove(name=a.get("name"), prefix=a.get("prefix"), regex=a.get("regex")))
+            return done(ns.remove(name=a.get("name"), prefix=a.get("prefix"), regex=a.get("regex")))
         if op == "list":
-            return norm(ns.list(prefix=a.get("prefix"), regex=a.get("regex"), return_metadata=a["meta"]))
+            return done(ns.list(prefix=a.get("prefix"), regex=a.get("regex"), return_metadata=a["meta"]))
         if op == "yplookup":
             ma, mn = a.get("all"), a.get("any")
             if a.get("as_list"):
                 ma = (list(ma) + list(ma)[:1]) if ma and not isinstance(ma, str) and a.get("dup") else (list(ma) if ma and not isinstance(ma, str) else ma)
                 mn = list(mn) if mn and not isinstance(mn, str) else mn
-            return norm(ns.yplookup(meta_all=ma, meta_any=mn, return_metadata=a["meta"]))
+            return done(ns.yplookup(meta_all=ma, meta_any=mn, return_metadata=a["meta"]), ma, mn)
         if op == "count":
             return ns.count()
     except Exception as x:
